@@ -32,6 +32,46 @@ type Small struct {
 	Y string `plenc:"2"`
 }
 
+// Reading and its namesakes: distinct types whose reflect.Type.String() is the
+// same ("world.Reading"): types declared inside functions print like the
+// package-level type of that name. Anything keyed by a type's printed name
+// confuses them.
+type Reading struct {
+	ID    int64  `plenc:"1"`
+	Value int64  `plenc:"2"`
+	Unit  string `plenc:"3"`
+}
+
+func namesakeA() interface{} {
+	type Reading struct {
+		Value int64  `plenc:"5"`
+		ID    int64  `plenc:"6"`
+		Note  string `plenc:"1"`
+	}
+	return Reading{}
+}
+
+func namesakeB() interface{} {
+	type Reading struct {
+		A []int64 `plenc:"1"`
+		B float64 `plenc:"2"`
+	}
+	return Reading{}
+}
+
+// Zeros: elements, values and fields of size zero.
+type Empty struct{}
+
+type Zeros struct {
+	A  int                 `plenc:"1"`
+	T  []struct{}          `plenc:"2"`
+	E  Empty               `plenc:"3"`
+	Es []Empty             `plenc:"4"`
+	M  map[string]struct{} `plenc:"5"`
+	P  *Empty              `plenc:"6"`
+	Z  string              `plenc:"7"`
+}
+
 // Ptrs: a pointer to every scalar kind, and containers of such pointers.
 type Ptrs struct {
 	B    *bool            `plenc:"1"`
@@ -340,10 +380,10 @@ type V0 struct {
 // Sparse / SparseNew: field indexes far apart (two-byte tags, gaps), and a newer
 // version that adds indexes above the older one's largest.
 type Sparse struct {
-	A int      `plenc:"1"`
-	B string   `plenc:"2"`
-	Z int      `plenc:"100"`
-	Y []int    `plenc:"250"`
+	A  int     `plenc:"1"`
+	B  string  `plenc:"2"`
+	Z  int     `plenc:"100"`
+	Y  []int   `plenc:"250"`
 	In *Sparse `plenc:"17"`
 }
 
@@ -419,6 +459,8 @@ func noProto(t *TypeInfo)           { t.NoProto = true }
 func init() {
 	reg("Wide", "F1", Wide{})
 	reg("Ptrs", "F1", Ptrs{})
+	reg("Zeros", "F1", Zeros{})
+	reg("[]Empty", "F1", []Empty{})
 	reg("Inner", "F1", Inner{})
 	reg("Small", "F1", Small{})
 	reg("[]Inner", "F1", []Inner{}, notTop)
@@ -442,6 +484,9 @@ func init() {
 	reg("[]RA", "F3", []RA{}, notTop)
 	reg("map[string]*RA", "F3", map[string]*RA{}, notTop)
 
+	reg("Reading", "FD", Reading{})
+	reg("Reading'", "FD", namesakeA())
+	reg("Reading''", "FD", namesakeB())
 	reg("RootA", "F4", RootA{})
 	reg("RootB", "F4", RootB{})
 	reg("RootC", "F4", RootC{})
